@@ -679,6 +679,11 @@ func (k worldKernel) Listen(*net.Interface, ndp.Addr) (system.SimNDPConn, netip.
 		return nil, netip.Addr{}, errors.New("sim: socket outside a dial attempt")
 	}
 	w := k.w
+	if f, _ := w.decide("sock.listen", ifc.n.id, ifc.spec.Name, ""); f != nil && f.Err != "" {
+		w.fault("sock.listen." + f.Err)
+		w.log.Add(verifsim.Event{K: "sock.fail", Node: ifc.n.id, If: ifc.spec.Name, S: "listen", Err: f.Err, F: faultTag(f)})
+		return nil, netip.Addr{}, simErr(f.Err, "listen")
+	}
 	w.mu.Lock()
 	ifc.gen++
 	c := &simConn{w: w, ifc: ifc, gen: ifc.gen}
@@ -689,9 +694,21 @@ func (k worldKernel) Listen(*net.Interface, ndp.Addr) (system.SimNDPConn, netip.
 	return c, ll, nil
 }
 
-func (c *simConn) SetICMPFilter(*ipv6.ICMPFilter) error            { return nil }
-func (c *simConn) SetControlMessage(ipv6.ControlFlags, bool) error { return nil }
-func (c *simConn) JoinGroup(netip.Addr) error                      { return nil }
+// setup is one of the calls dialNDP makes on a fresh socket; each may fail.
+func (c *simConn) setup(step string) error {
+	if f, _ := c.w.decide("sock."+step, c.ifc.n.id, c.ifc.spec.Name, ""); f != nil && f.Err != "" {
+		c.w.fault("sock." + step + "." + f.Err)
+		e := c.ev("sock.fail")
+		e.S, e.Err, e.F = step, f.Err, faultTag(f)
+		c.w.log.Add(e)
+		return simErr(f.Err, step)
+	}
+	return nil
+}
+
+func (c *simConn) SetICMPFilter(*ipv6.ICMPFilter) error            { return c.setup("filter") }
+func (c *simConn) SetControlMessage(ipv6.ControlFlags, bool) error { return c.setup("ctrl") }
+func (c *simConn) JoinGroup(netip.Addr) error                      { return c.setup("join") }
 func (c *simConn) LeaveGroup(netip.Addr) error                     { return nil }
 
 // Close is the end of a connection's socket.
